@@ -335,7 +335,14 @@ def run_case(case):
             exists, npts, head = exact_matching_exists(probe, vw)
             row["fallback_scan"] = {"exact_exists": exists, "points": npts}
             if exists:
-                viol.append({"mech": "template-fallback-where-exact-matching-exists",
+                fb_mech = "template-fallback-where-exact-matching-exists"
+                if vw < 0.05 and (m.get("n_hybr_failed") or 0) > 0:
+                    # the slow-wall family of the known findings: the 2x2 solves fail inside
+                    # the v+ bracket (equations O(v_w^2) in absolute form, NaN template guess
+                    # at small v+); since the repairs 6c2cf41/60b6410 a failure at the root
+                    # ends in the template fallback instead of returning garbage
+                    fb_mech = "slow-wall-matching-not-converged-falls-back-to-template"
+                viol.append({"mech": fb_mech,
                              "msg": f"findMatching({vw}) fell back to the template model "
                              f"although T_n'(v+)-T_n changes sign on the scanned v+ "
                              f"interval ({npts} validated points) for EOS {spec}",
